@@ -273,16 +273,17 @@ class Outcome(object):
             rc = 1
             d = os.path.join(REPLAY, self.prop)
             os.makedirs(d, exist_ok=True)
-            for i, (what, obj) in enumerate(self.violations[:20]):
+            maxv = int(os.environ.get('PNC_MAXVIOL', '20'))
+            for i, (what, obj) in enumerate(self.violations[:maxv]):
                 path = os.path.join(d, 'v%03d.json' % i)
                 with open(path, 'w') as f:
                     json.dump({'property': self.prop, 'what': what,
                                'case': obj}, f, indent=1, default=str)
                 print('VIOLATION property=%s replay=%s' % (self.prop, path))
                 print("  " + what[:400])
-            if len(self.violations) > 20:
+            if len(self.violations) > maxv:
                 print('  (%d more violations not written)'
-                      % (len(self.violations) - 20))
+                      % (len(self.violations) - maxv))
         cov = self.cov
         if self.exhaustive is not None:
             cov['exhaustive'] = bool(self.exhaustive)
@@ -392,5 +393,10 @@ def main_wrap(fn):
         rc = fn()
     except Machinery as ex:
         print('MACHINERY-FAILURE: %s' % ex)
+        sys.exit(2)
+    except Exception:
+        import traceback
+        print('MACHINERY-FAILURE: unexpected exception in the harness')
+        traceback.print_exc()
         sys.exit(2)
     sys.exit(rc)
